@@ -58,9 +58,19 @@ end Ctx
 /-- the type of the recursive call: validate `doc` against `schema` in a child context -/
 abbrev Rec := Ctx → (schema : Val) → (doc : Val) → (update : Bool) → M (List Err)
 
+/-- an error as a rule handler describes it; `_error` (`V.mkErr`) turns it into a
+    `ValidationError` by adding paths, constraint and value -/
+structure ESpec where
+  code : Nat
+  /-- `none` for custom errors (`_error(field, message)`) -/
+  rule : Option String
+  info : List Val := []
+  kids : List Err := []
+  deriving Inhabited
+
 /-- what a rule handler tells the queue -/
 structure HOut where
-  errs : List Err := []
+  errs : List ESpec := []
   /-- `_drop_remaining_rules(*rules)` -/
   drop : List String := []
   /-- `_drop_remaining_rules()` without arguments, a truthy return value, or `_SchemaRuleTypeError` -/
@@ -109,9 +119,15 @@ def mkErr (env : Env) (ctx : Ctx) (schema doc : Val) (field : Key) (code : Nat)
       | none => raisePy "KeyError" "_error"
 
 /-- `_error(field, message)`: a custom error -/
-def mkCustom (ctx : Ctx) (doc : Val) (field : Key) (msg : String) : Err :=
-  .mk (ctx.docPath ++ [field]) ctx.schemaPath false Code.CUSTOM none .none
-    ((doc.dget? field).getD .none) [.str msg] []
+def customSpec (msg : String) : ESpec := { code := Code.CUSTOM, rule := none, info := [.str msg] }
+
+/-- `_error` for every error a handler describes -/
+def buildErrs (env : Env) (ctx : Ctx) (schema doc : Val) (f : Key) : List ESpec → M (List Err)
+  | [] => pure []
+  | sp :: r => do
+    let e ← mkErr env ctx schema doc f sp.code sp.rule sp.info sp.kids
+    let es ← buildErrs env ctx schema doc f r
+    pure (e :: es)
 
 /-! ### `_lookup_field` (after the repair of F5: a non-mapping context means "not found") -/
 
@@ -141,7 +157,7 @@ def hNullable (env : Env) (t : Tables) (ctx : Ctx) (schema doc : Val) (f : Key) 
   if v.isNone then
     let nullable := (c.getD .none).truthy
     let errs ← if nullable then pure [] else do
-      let e ← mkErr env ctx schema doc f Code.NOT_NULLABLE (some "nullable") [] []
+      let e := ({ code := Code.NOT_NULLABLE, rule := some "nullable", info := [], kids := [] } : ESpec)
       pure [e]
     pure { errs, drop := t.dropOnNone }
   else pure {}
@@ -150,10 +166,11 @@ def hReadonly (env : Env) (ctx : Ctx) (schema doc : Val) (f : Key) (c v : Val) (
   let _ := v
   if c.truthy then
     let errs ← if !ctx.cfg.isNormalized then do
-        let e ← mkErr env ctx schema doc f Code.READONLY_FIELD (some "readonly") [] []
+        let e := ({ code := Code.READONLY_FIELD, rule := some "readonly", info := [], kids := [] } : ESpec)
         pure [e]
       else pure []
-    let hasError := hasErrAt (sofar ++ errs) (ctx.docPath ++ [f]) Code.READONLY_FIELD
+    -- the error just filed (if any) is found at this path too
+    let hasError := !errs.isEmpty || hasErrAt sofar (ctx.docPath ++ [f]) Code.READONLY_FIELD
     pure { errs, dropAll := ctx.cfg.isNormalized && hasError }
   else pure {}
 
@@ -180,7 +197,7 @@ def hType (env : Env) (t : Tables) (ctx : Ctx) (schema doc : Val) (f : Key) (c v
   let names ← typeNames c
   if ← matchesAny t v names then pure {}
   else
-    let e ← mkErr env ctx schema doc f Code.BAD_TYPE (some "type") [] []
+    let e := ({ code := Code.BAD_TYPE, rule := some "type", info := [], kids := [] } : ESpec)
     pure { errs := [e], dropAll := t.typeFailDropsAll }
 
 def hEmpty (env : Env) (t : Tables) (ctx : Ctx) (schema doc : Val) (f : Key) (c v : Val) : M HOut := do
@@ -188,7 +205,7 @@ def hEmpty (env : Env) (t : Tables) (ctx : Ctx) (schema doc : Val) (f : Key) (c 
     let n ← liftPy (v.pyLen? "_validate_empty")
     if n == 0 then
       let errs ← if !c.truthy then do
-          let e ← mkErr env ctx schema doc f Code.EMPTY_NOT_ALLOWED (some "empty") [] []
+          let e := ({ code := Code.EMPTY_NOT_ALLOWED, rule := some "empty", info := [], kids := [] } : ESpec)
           pure [e]
         else pure []
       return { errs, drop := t.dropOnEmpty }
@@ -208,12 +225,12 @@ def hAllowed (env : Env) (ctx : Ctx) (schema doc : Val) (f : Key) (c v : Val) : 
     let un := xs.filter (fun x => !isAllowed c x)
     if un.isEmpty then pure {}
     else
-      let e ← mkErr env ctx schema doc f Code.UNALLOWED_VALUES (some "allowed") [.seq true un] []
+      let e := ({ code := Code.UNALLOWED_VALUES, rule := some "allowed", info := [.seq true un], kids := [] } : ESpec)
       pure { errs := [e] }
   else
     if isAllowed c v then pure {}
     else
-      let e ← mkErr env ctx schema doc f Code.UNALLOWED_VALUE (some "allowed") [v] []
+      let e := ({ code := Code.UNALLOWED_VALUE, rule := some "allowed", info := [v], kids := [] } : ESpec)
       pure { errs := [e] }
 
 def filterIn (site : String) (c : Val) : List Val → M (List Val)
@@ -230,12 +247,12 @@ def hForbidden (env : Env) (ctx : Ctx) (schema doc : Val) (f : Key) (c v : Val) 
     let fb ← filterIn "_validate_forbidden" c xs
     if fb.isEmpty then pure {}
     else
-      let e ← mkErr env ctx schema doc f Code.FORBIDDEN_VALUES (some "forbidden") [.seq false fb] []
+      let e := ({ code := Code.FORBIDDEN_VALUES, rule := some "forbidden", info := [.seq false fb], kids := [] } : ESpec)
       pure { errs := [e] }
   else
     let isIn ← liftPy (Val.pyIn? "_validate_forbidden" c v)
     if isIn then
-      let e ← mkErr env ctx schema doc f Code.FORBIDDEN_VALUE (some "forbidden") [v] []
+      let e := ({ code := Code.FORBIDDEN_VALUE, rule := some "forbidden", info := [v], kids := [] } : ESpec)
       pure { errs := [e] }
     else pure {}
 
@@ -251,20 +268,20 @@ def hContains (env : Env) (ctx : Ctx) (schema doc : Val) (f : Key) (c v : Val) :
   let missing := expected.filter (fun x => !(have_.any (fun y => Val.pyEq x y)))
   if missing.isEmpty then pure {}
   else
-    let e ← mkErr env ctx schema doc f Code.MISSING_MEMBERS (some "contains") [.seq false missing] []
+    let e := ({ code := Code.MISSING_MEMBERS, rule := some "contains", info := [.seq false missing], kids := [] } : ESpec)
     pure { errs := [e] }
 
 def hMin (env : Env) (ctx : Ctx) (schema doc : Val) (f : Key) (c v : Val) : M HOut := do
   match Val.pyLt? v c with
   | some true =>
-    let e ← mkErr env ctx schema doc f Code.MIN_VALUE (some "min") [] []
+    let e := ({ code := Code.MIN_VALUE, rule := some "min", info := [], kids := [] } : ESpec)
     pure { errs := [e] }
   | _ => pure {}
 
 def hMax (env : Env) (ctx : Ctx) (schema doc : Val) (f : Key) (c v : Val) : M HOut := do
   match Val.pyLt? c v with
   | some true =>
-    let e ← mkErr env ctx schema doc f Code.MAX_VALUE (some "max") [] []
+    let e := ({ code := Code.MAX_VALUE, rule := some "max", info := [], kids := [] } : ESpec)
     pure { errs := [e] }
   | _ => pure {}
 
@@ -276,8 +293,8 @@ def hLength (env : Env) (ctx : Ctx) (schema doc : Val) (f : Key) (c v : Val) (is
   | some cn =>
     let bad := if isMin then Val.numLt (Int.ofNat n, 0) cn else Val.numLt cn (Int.ofNat n, 0)
     if bad then
-      let e ← mkErr env ctx schema doc f (if isMin then Code.MIN_LENGTH else Code.MAX_LENGTH)
-                (some (if isMin then "minlength" else "maxlength")) [.int n] []
+      let e : ESpec := { code := if isMin then Code.MIN_LENGTH else Code.MAX_LENGTH,
+                         rule := some (if isMin then "minlength" else "maxlength"), info := [.int n] }
       pure { errs := [e] }
     else pure {}
 
@@ -288,7 +305,7 @@ def hRegex (env : Env) (ctx : Ctx) (schema doc : Val) (f : Key) (c v : Val) : M 
     | none => .error (.oracle ("rx\t" ++ pat ++ "\t" ++ s))
     | some true => pure {}
     | some false =>
-      let e ← mkErr env ctx schema doc f Code.REGEX_MISMATCH (some "regex") [] []
+      let e := ({ code := Code.REGEX_MISMATCH, rule := some "regex", info := [], kids := [] } : ESpec)
       pure { errs := [e] }
   | .str _, _ => raisePy "AttributeError" "_validate_regex"
   | _, _ => pure {}
@@ -297,16 +314,14 @@ def depName (site : String) : Val → M String
   | .str s => pure s
   | _ => raisePy "AttributeError" site
 
-def depsSequence (env : Env) (ctx : Ctx) (schema doc : Val) (f : Key) : List Val → M (List Err)
+def depsSequence (ctx : Ctx) (doc : Val) : List Val → M (List ESpec)
   | [] => pure []
   | d :: ds => do
     let name ← depName "_lookup_field" d
-    let here ← match lookupField ctx doc name with
-      | some _ => pure []
-      | none => do
-        let e ← mkErr env ctx schema doc f Code.DEPENDENCIES_FIELD (some "dependencies") [d] []
-        pure [e]
-    let rest ← depsSequence env ctx schema doc f ds
+    let here : List ESpec := match lookupField ctx doc name with
+      | some _ => []
+      | none => [{ code := Code.DEPENDENCIES_FIELD, rule := some "dependencies", info := [d] }]
+    let rest ← depsSequence ctx doc ds
     pure (here ++ rest)
 
 /-- returns the `error_info` entries of dependencies that are not satisfied -/
@@ -323,22 +338,17 @@ def depsMapping (ctx : Ctx) (doc : Val) : List (Key × Val) → M (List (Key × 
     let rest ← depsMapping ctx doc r
     pure (if allowed.any (fun a => Val.pyEq wanted a) then rest else (k, wanted) :: rest)
 
-def hDependencies (env : Env) (ctx : Ctx) (schema doc : Val) (f : Key) (c v : Val) (sofar : List Err) :
-    M HOut := do
+def hDependencies (env : Env) (ctx : Ctx) (schema doc : Val) (f : Key) (c v : Val) : M HOut := do
   let _ := v
   let deps := if c.isStr || !(c.isIterable || c.isMapping) then Val.seq true [c] else c
-  let errs ← match deps with
-    | .seq _ xs => depsSequence env ctx schema doc f xs
+  let errs : List ESpec ← match deps with
+    | .seq _ xs => depsSequence ctx doc xs
     | .dict kvs => do
       let bad ← depsMapping ctx doc kvs
       if bad.isEmpty then pure []
-      else do
-        let e ← mkErr env ctx schema doc f Code.DEPENDENCIES_FIELD_VALUE (some "dependencies") [.dict bad] []
-        pure [e]
+      else pure [{ code := Code.DEPENDENCIES_FIELD_VALUE, rule := some "dependencies", info := [.dict bad] }]
     | _ => pure []
-  -- the check `document_error_tree.fetch_node_from(schema_path + (field, 'dependencies'))`
-  let stop := hasNodeAt (sofar ++ errs) (ctx.schemaPath ++ [f, kS "dependencies"])
-  pure { errs, dropAll := stop }
+  pure { errs }
 
 def keyIn (kvs : List (Key × Val)) (x : Val) : Bool :=
   match x.toKey? with
@@ -356,7 +366,7 @@ def hExcludes (env : Env) (ctx : Ctx) (schema doc : Val) (f : Key) (c v : Val) :
   let un1 := if req then [f] else []
   let un2 := if req then excluded.filterMap (fun x => if keyIn skvs x then x.toKey? else none) else []
   if excluded.any (fun x => keyIn dkvs x) then
-    let e ← mkErr env ctx schema doc f Code.EXCLUDES_FIELD (some "excludes") [] []
+    let e := ({ code := Code.EXCLUDES_FIELD, rule := some "excludes", info := [], kids := [] } : ESpec)
     pure { errs := [e], unreq := un1 ++ un2 }
   else pure { unreq := un1 ++ un2 }
 
@@ -367,7 +377,7 @@ def hItems (env : Env) (rec : Rec) (ctx : Ctx) (schema doc : Val) (f : Key) (c v
   let n ← liftPy (c.pyLen? "_validate_items")
   let m ← liftPy (v.pyLen? "_validate_items")
   if n != m then
-    let e ← mkErr env ctx schema doc f Code.ITEMS_LENGTH (some "items") [.int n, .int m] []
+    let e := ({ code := Code.ITEMS_LENGTH, rule := some "items", info := [.int n, .int m], kids := [] } : ESpec)
     pure { errs := [e] }
   else
     let defs ← liftPy (c.pyIter? "_validate_items")
@@ -376,7 +386,7 @@ def hItems (env : Env) (rec : Rec) (ctx : Ctx) (schema doc : Val) (f : Key) (c v
     let cerrs ← rec cctx (.dict (Val.enumDict defs)) (.dict (Val.enumDict vals)) upd
     if cerrs.isEmpty then pure {}
     else
-      let e ← mkErr env ctx schema doc f Code.BAD_ITEMS (some "items") [] cerrs
+      let e := ({ code := Code.BAD_ITEMS, rule := some "items", info := [], kids := cerrs } : ESpec)
       pure { errs := [e] }
 
 def hSchema (env : Env) (rec : Rec) (ctx : Ctx) (schema doc : Val) (f : Key) (c v : Val) (upd : Bool) :
@@ -390,7 +400,7 @@ def hSchema (env : Env) (rec : Rec) (ctx : Ctx) (schema doc : Val) (f : Key) (c 
     if cerrs.isEmpty then pure {}
     else
       let kids := dropSpL ctx.schemaPath.length [2] cerrs
-      let e ← mkErr env ctx schema doc f Code.SEQUENCE_SCHEMA (some "schema") [] kids
+      let e := ({ code := Code.SEQUENCE_SCHEMA, rule := some "schema", info := [], kids := kids } : ESpec)
       pure { errs := [e] }
   | .dict _ =>
     let rs ← fieldRules env schema f "__validate_schema_mapping"
@@ -405,11 +415,11 @@ def hSchema (env : Env) (rec : Rec) (ctx : Ctx) (schema doc : Val) (f : Key) (c 
     | .ok cerrs =>
       if cerrs.isEmpty then pure {}
       else
-        let e ← mkErr env ctx schema doc f Code.MAPPING_SCHEMA (some "schema") [] cerrs
+        let e := ({ code := Code.MAPPING_SCHEMA, rule := some "schema", info := [], kids := cerrs } : ESpec)
         pure { errs := [e] }
     | .error .schemaRuleType =>
       -- `_SchemaRuleTypeError`: BAD_TYPE_FOR_SCHEMA is filed, the exception ends the rule loop
-      let e ← mkErr env ctx schema doc f Code.BAD_TYPE_FOR_SCHEMA (some "schema") [] []
+      let e := ({ code := Code.BAD_TYPE_FOR_SCHEMA, rule := some "schema", info := [], kids := [] } : ESpec)
       pure { errs := [e], dropAll := true }
     | .error x => .error x
   | _ => pure {}
@@ -423,7 +433,7 @@ def hKeysrules (env : Env) (rec : Rec) (ctx : Ctx) (schema doc : Val) (f : Key) 
     if cerrs.isEmpty then pure {}
     else
       let kids := dropSpL ctx.schemaPath.length [2] cerrs
-      let e ← mkErr env ctx schema doc f Code.KEYSRULES (some "keysrules") [] kids
+      let e := ({ code := Code.KEYSRULES, rule := some "keysrules", info := [], kids := kids } : ESpec)
       pure { errs := [e] }
   | _ => pure {}
 
@@ -436,7 +446,7 @@ def hValuesrules (env : Env) (rec : Rec) (ctx : Ctx) (schema doc : Val) (f : Key
     if cerrs.isEmpty then pure {}
     else
       let kids := dropSpL ctx.schemaPath.length [2] cerrs
-      let e ← mkErr env ctx schema doc f Code.VALUESRULES (some "valuesrules") [] kids
+      let e := ({ code := Code.VALUESRULES, rule := some "valuesrules", info := [], kids := kids } : ESpec)
       pure { errs := [e] }
   | _ => pure {}
 
@@ -476,28 +486,28 @@ def hLogical (env : Env) (rec : Rec) (ctx : Ctx) (schema doc : Val) (f : Key) (o
     | "noneof" => decide (valids > 0)
     | _ => valids != 1
   if failed then
-    let e ← mkErr env ctx schema doc f code (some op) [.int valids, .int n] errs
+    let e : ESpec := { code := code, rule := some op, info := [.int valids, .int n], kids := errs }
     pure { errs := [e] }
   else pure {}
 
-def checkOne (env : Env) (ctx : Ctx) (doc : Val) (f : Key) (v : Val) : Val → M (List Err)
+def checkOne (env : Env) (v : Val) : Val → M (List ESpec)
   | .str name | .fn name =>
     match env.checker name v with
-    | some msgs => pure (msgs.map (mkCustom ctx doc f))
+    | some msgs => pure (msgs.map customSpec)
     | none => raisePy "RuntimeError" "__get_rule_handler"
   | _ => raisePy "TypeError" "_validate_check_with"
 
-def checkAll (env : Env) (ctx : Ctx) (doc : Val) (f : Key) (v : Val) : List Val → M (List Err)
+def checkAll (env : Env) (v : Val) : List Val → M (List ESpec)
   | [] => pure []
   | c :: cs => do
-    let a ← checkOne env ctx doc f v c
-    let b ← checkAll env ctx doc f v cs
+    let a ← checkOne env v c
+    let b ← checkAll env v cs
     pure (a ++ b)
 
-def hCheckWith (env : Env) (ctx : Ctx) (doc : Val) (f : Key) (c v : Val) : M HOut := do
+def hCheckWith (env : Env) (c v : Val) : M HOut := do
   match c with
-  | .seq _ xs => pure { errs := ← checkAll env ctx doc f v xs }
-  | _ => pure { errs := ← checkOne env ctx doc f v c }
+  | .seq _ xs => pure { errs := ← checkAll env v xs }
+  | _ => pure { errs := ← checkOne env v c }
 
 /-- dispatch of `validate_rule(rule)`; `sofar` = errors this validator has recorded so far -/
 def handler (env : Env) (t : Tables) (rec : Rec) (ctx : Ctx) (schema doc : Val) (upd : Bool)
@@ -516,7 +526,7 @@ def handler (env : Env) (t : Tables) (rec : Rec) (ctx : Ctx) (schema doc : Val) 
   | "minlength" => hLength env ctx schema doc f c v true
   | "maxlength" => hLength env ctx schema doc f c v false
   | "regex" => hRegex env ctx schema doc f c v
-  | "dependencies" => hDependencies env ctx schema doc f c v sofar
+  | "dependencies" => hDependencies env ctx schema doc f c v
   | "excludes" => hExcludes env ctx schema doc f c v
   | "items" => hItems env rec ctx schema doc f c v upd
   | "schema" => hSchema env rec ctx schema doc f c v upd
@@ -526,7 +536,7 @@ def handler (env : Env) (t : Tables) (rec : Rec) (ctx : Ctx) (schema doc : Val) 
   | "allof" => hLogical env rec ctx schema doc f "allof" Code.ALLOF c v upd
   | "noneof" => hLogical env rec ctx schema doc f "noneof" Code.NONEOF c v upd
   | "oneof" => hLogical env rec ctx schema doc f "oneof" Code.ONEOF c v upd
-  | "check_with" => hCheckWith env ctx doc f c v
+  | "check_with" => hCheckWith env c v
   | _ => raisePy "RuntimeError" "__get_rule_handler"
 
 /-! ### the rule queue -/
@@ -547,13 +557,13 @@ structure QState where
 /-- the `while self._remaining_rules` loop.  The queue holds each rule once, so
     removing dropped rules from the remaining queue is the same as skipping them
     when their turn comes. -/
-def runQueue (h : List Err → String → M HOut) : List String → QState → M QState
+def runQueue (h : List Err → String → M (HOut × List Err)) : List String → QState → M QState
   | [], s => pure s
   | r :: rs, s =>
     if s.stopped || s.dropped.contains r then runQueue h rs s
     else do
-      let o ← h s.errs r
-      runQueue h rs { errs := s.errs ++ o.errs, dropped := s.dropped ++ o.drop,
+      let (o, es) ← h s.errs r
+      runQueue h rs { errs := s.errs ++ es, dropped := s.dropped ++ o.drop,
                       stopped := o.dropAll, unreq := s.unreq ++ o.unreq }
 
 def ruleNames (defs : Val) : M (List String) :=
@@ -569,7 +579,10 @@ def validateDefinitions (env : Env) (t : Tables) (rec : Rec) (ctx : Ctx) (schema
     | none => raisePy "TypeError" "__validate_definitions"
   let names ← ruleNames defs
   let q := buildQueue t names
-  let s' ← runQueue (fun sofar rule => handler env t rec ctx schema doc upd f defs v sofar rule) q
+  let s' ← runQueue (fun sofar rule => do
+                let o ← handler env t rec ctx schema doc upd f defs v sofar rule
+                let es ← buildErrs env ctx schema doc f o.errs
+                pure (o, es)) q
               { s with dropped := [], stopped := false }
   pure s'
 
